@@ -169,13 +169,36 @@ fn build_segment(ts: u32, segid: u16, ids: &[u32], keys: &HashMap<u32, SigningKe
     Ok(seg)
 }
 
+/// honest segment whose last entry is an exact copy (AsEntry incl. MAC) of its first entry, signed with
+/// UnsignedPathSegment::try_into_signed_segment
+fn build_dup_segment(ts: u32, segid: u16, ids: &[u32], keys: &HashMap<u32, SigningKey>, sig_ts: u32) -> Result<SignedPathSegment, String> {
+    let mut u = UnsignedPathSegment::new(ts, segid, vec![]);
+    for (i, id) in ids[..ids.len() - 1].iter().enumerate() {
+        u.add_unsigned_entry(as_entry(*id, i == 0, false), &[*id as u8; 16]);
+    }
+    let c = u.as_entries[0].clone();
+    u.as_entries.push(c);
+    let provider = |local: IsdAsn| {
+        ids.iter().find(|id| ia(**id) == local).map(|id| (keys[id].clone(), Some(kid_of(*id))))
+    };
+    match catch(|| u.try_into_signed_segment(provider, sig_ts)) {
+        Err(p) => Err(format!("try_into_signed_segment panicked: {p}")),
+        Ok(Err(e)) => Err(format!("try_into_signed_segment failed: {e}")),
+        Ok(Ok(s)) => Ok(s),
+    }
+}
+
 impl World {
     /// Honest construction with the library under test; an Err is an observation about that library.
-    fn new(n0: usize) -> Result<World, String> {
+    fn new(n0: usize, variant: u64) -> Result<World, String> {
         let mut keys = HashMap::new();
         let mut vks = HashMap::new();
         let mut kids = HashMap::new();
-        let base_ids: Vec<u32> = (1..=n0 as u32).collect();
+        let mut base_ids: Vec<u32> = (1..=n0 as u32).collect();
+        if variant == 1 {
+            // the last entry is a copy of the first AS entry (the signer meets an entry equal to an earlier one)
+            *base_ids.last_mut().unwrap() = 1;
+        }
         let foreign_ids: Vec<u32> = (21..=20 + n0 as u32).collect();
         for id in base_ids.iter().chain(foreign_ids.iter()).chain([30u32].iter()) {
             let k = det_key(1, *id);
@@ -185,7 +208,11 @@ impl World {
             kids.insert((kid.isd_as, kid.subject_key_id), *id);
         }
         let wrong = *det_key(2, 999).verifying_key();
-        let base_seg = build_segment(1_700_000_000, 0x1234, &base_ids, &keys, 1_700_000_100)?;
+        let base_seg = if variant == 1 {
+            build_dup_segment(1_700_000_000, 0x1234, &base_ids, &keys, 1_700_000_100)?
+        } else {
+            build_segment(1_700_000_000, 0x1234, &base_ids, &keys, 1_700_000_100)?
+        };
         let foreign_seg = build_segment(1_700_000_777, 0x4321, &foreign_ids, &keys, 1_700_000_800)?;
         let mut ext = base_seg.clone();
         let mut ext_ids = base_ids.clone();
@@ -514,14 +541,15 @@ fn parse_expect(v: &Value) -> Vec<(bool, String)> {
 fn replay(inp: &str, outp: &str) {
     let lines = vh_core::read_ndjson(inp);
     let seed = vh_core::seed_from_env();
-    let mut worlds: HashMap<usize, Result<World, String>> = HashMap::new();
+    let mut worlds: HashMap<(usize, u64), Result<World, String>> = HashMap::new();
     let mut w = NdjsonWriter::create(outp);
     for line in lines.iter() {
         if line.get("ev").is_some() {
             continue;
         }
         let n = line["n"].as_u64().unwrap() as usize;
-        let world = match worlds.entry(n).or_insert_with(|| World::new(n)) {
+        let variant = line["v"].as_u64().unwrap_or(0);
+        let world = match worlds.entry((n, variant)).or_insert_with(|| World::new(n, variant)) {
             Ok(w) => &*w,
             Err(e) => {
                 // the library under test cannot even build / export the honest segment
@@ -584,7 +612,7 @@ fn flips(inp: &str, outp: &str) {
     let thorough = vh_core::tier_is_thorough();
     let seed = vh_core::seed_from_env();
     let mut rng = Rng::new(seed ^ 0xf11b5);
-    let mut worlds: HashMap<usize, Result<World, String>> = HashMap::new();
+    let mut worlds: HashMap<(usize, u64), Result<World, String>> = HashMap::new();
     let mut total = 0u64;
     let mut verifies = 0u64;
     let mut rejected = 0u64;
@@ -600,7 +628,8 @@ fn flips(inp: &str, outp: &str) {
         let st = &line["h"][0];
         let op = st["op"].as_str().unwrap().to_string();
         let a = st["a"].as_u64().unwrap() as usize;
-        let world = match worlds.entry(n).or_insert_with(|| World::new(n)) {
+        let variant = line["v"].as_u64().unwrap_or(0);
+        let world = match worlds.entry((n, variant)).or_insert_with(|| World::new(n, variant)) {
             Ok(w) => &*w,
             Err(e) => {
                 if pvs.len() < 50 {
@@ -664,7 +693,7 @@ fn flips(inp: &str, outp: &str) {
                 }
             }
         }
-        per_case.push(json!({"n": n, "op": op, "a": a, "bits": offs.len(), "all_bits": all, "violations": case_viol}));
+        per_case.push(json!({"n": n, "v": variant, "op": op, "a": a, "bits": offs.len(), "all_bits": all, "violations": case_viol}));
     }
     let out = json!({"flips": total, "verifications": verifies, "segment_rejected": rejected, "classes": by_class,
         "cases": per_case, "exhaustive_cases": exhaustive_cases, "pv": pvs});
@@ -1050,7 +1079,7 @@ fn record(events: &str, rpcev: &str, results: &str) {
     let runs = if thorough { 1500 } else { 250 };
     let mut w = NdjsonWriter::create(events);
     w.write(&json!({"ev": "meta", "spec": "SignedSegment", "seed": seed, "nmax": 7}));
-    let mut worlds: HashMap<usize, Result<World, String>> = HashMap::new();
+    let mut worlds: HashMap<(usize, u64), Result<World, String>> = HashMap::new();
     let mut pvs: Vec<Value> = vec![];
     let mut n_events = 0u64;
     let mut n_validations = 0u64;
@@ -1059,7 +1088,8 @@ fn record(events: &str, rpcev: &str, results: &str) {
     let names = ["FlipBody", "FlipHdr", "FlipSig", "FlipInfo", "Swap", "Truncate", "Remove", "InsertCopy", "ExtendForeign", "ExtendLegit", "SubstKey", "NoKey"];
     for run in 0..runs {
         let n0 = rng.range(1, 7) as usize;
-        let world = match worlds.entry(n0).or_insert_with(|| World::new(n0)) {
+        let variant = if n0 >= 3 && rng.chance(1, 3) { 1 } else { 0 };
+        let world = match worlds.entry((n0, variant)).or_insert_with(|| World::new(n0, variant)) {
             Ok(w) => &*w,
             Err(e) => {
                 if pvs.len() < 20 {
@@ -1069,7 +1099,7 @@ fn record(events: &str, rpcev: &str, results: &str) {
             }
         };
         let mut t = Tampered { m: world.base.clone(), ov: HashMap::new() };
-        w.write(&json!({"ev": "reset", "n": n0, "run": run}));
+        w.write(&json!({"ev": "reset", "n": n0, "v": variant, "run": run}));
         n_events += 1;
         let steps = rng.range(0, 4);
         let mut hist = vec![];
